@@ -8,10 +8,19 @@ k-mers are identical at the informative positions - or, with a similarity rule,
 whose summed substitution score reaches the threshold - and whose k-mers touch
 no masked position.  Results are compared as multisets (a reference id may be
 used twice); the documented order of ``match`` (first column ascending) is
-checked separately.  Selectors are re-implemented from their definitions.
+checked separately.  Selectors are re-implemented from their definitions; the
+sort keys of RandomPermutation / FrequencyPermutation are asked from the
+permutation object (the selectors are defined through them), the permutation
+classes are judged by the sub-check ``permutation``.
+
+Where the documentation only says that an input is not supported (alphabet that
+is not extended, sequence shorter than k) every exception type counts as a
+refusal (label ``...:<ExceptionType>``) and a returned value must be the
+correct one; see notes/audit/C10_applied.md.
 """
 
 import json
+import math
 import pickle
 from collections import Counter
 from functools import lru_cache
@@ -24,7 +33,7 @@ from vlib import Outcome, Sub, findings
 
 PROPERTY = "C10"
 RULE = (
-    "random alphabets (2..6 symbols, 26 for the large-code bucket check), k, spacing models, 1..5 "
+    "random alphabets (2..6 symbols, 26 for the large-code bucket check, 255..70000 integer symbols for the k-mer alphabet check), k, spacing models, 1..5 "
     "references partly cut from a common text (forces shared k-mers), reference ids incl. duplicates "
     "and 2^32-1, ignore masks, queries cut from the references; tables built by every constructor, "
     "direct and bucketed (n_buckets 1, 2, prime near size, > size, default).  Non-trivial = some k-mer "
@@ -37,6 +46,23 @@ LETTERS = ref.LETTERS
 F1, F2, F3, F4, F5 = "C10-F1", "C10-F2", "C10-F3", "C10-F4", "C10-F5"
 INT64_MAX = (1 << 63) - 1
 INT64_MIN = -(1 << 63)
+
+# Exceptions that are never read as "the input was rejected" (resource / interpreter trouble)
+_NOT_A_REJECTION = (MemoryError, SystemError, RecursionError)
+
+
+def _rejected(o, fn, tag):
+    """Call fn().  (True, None) if it refused the input with an ordinary exception - the documentation
+    promises only that such input is not supported, no exception type - else (False, value).  The
+    exception type is recorded as a label."""
+    try:
+        value = fn()
+    except _NOT_A_REJECTION:
+        raise
+    except Exception as exc:  # noqa: BLE001 - any exception type is a rejection, see docstring
+        o.label(f"{tag}:{type(exc).__name__}")
+        return True, None
+    return False, value
 
 
 # --------------------------------------------------------------------------
@@ -101,6 +127,23 @@ def _cmp_multiset(o, got, want, clause, what):
         extra = sorted((cg - cw).elements())[:6]
         o.fail(clause, f"{what}: {len(got)} rows, expected {len(want)}; missing {missing} unexpected {extra}")
         return False
+    return True
+
+
+def _cmp_matches(o, got, want_full, want_required, clause, what):
+    """Match rows against the model.  want_required is None: the rows must be exactly want_full.
+    Otherwise (similarity rule, finding C10-F2 not listed as open): identical k-mers whose self-score
+    is below the threshold may or may not be reported - want_required <= got <= want_full."""
+    if want_required is None:
+        return _cmp_multiset(o, got, want_full, clause, what)
+    cg, cf, cr = Counter(got), Counter(want_full), Counter(want_required)
+    missing = sorted((cr - cg).elements())[:6]
+    extra = sorted((cg - cf).elements())[:6]
+    if missing or extra:
+        o.fail(clause, f"{what}: {len(got)} rows, expected {len(want_required)}..{len(want_full)}; missing {missing} unexpected {extra}")
+        return False
+    if cf != cr:
+        o.label("identical_below_threshold:" + ("reported" if cg == cf else "not_reported" if cg == cr else "partly_reported"))
     return True
 
 
@@ -197,7 +240,7 @@ def _groups(case, m):
     return [(a, b) for a, b in zip(bounds[:-1], bounds[1:])]
 
 
-def _build(e, case, mode):
+def _build(e, case, mode, o=None):
     """Build the table holding the k-mers of e.long_refs with the given constructor."""
     cls = _table_cls(e.kind)
     seq_dicts, ids = e.long_refs, e.ids
@@ -208,23 +251,47 @@ def _build(e, case, mode):
         return pickle.loads(pickle.dumps(t, protocol=case.get("pickle_protocol", 4)))
     ka = _kmer_alphabet(e.n_table, e.k, case)
     arrays = _kmer_arrays(e, seq_dicts)
+    # default reference ids (0..m-1): the argument is left out
+    ids_kw = {} if (not case["explicit_ids"] and case.get("default_ref_ids_omitted", False)) else {"ref_ids": ids}
+    if not ids_kw and o is not None:
+        o.label("ref_ids_omitted")
     if mode == "kmers":
         kmers = [np.array(codes, dtype=np.int64) for codes, _ in arrays]
         if all(r.get("mask") is None for r in seq_dicts):
-            masks = None
-        else:
-            masks = [None if r.get("mask") is None else np.array(keep, dtype=bool) for r, (_, keep) in zip(seq_dicts, arrays)]
-        return cls.from_kmers(ka, kmers, ref_ids=ids, masks=masks, **_bucket_kw(e))
+            return cls.from_kmers(ka, kmers, masks=None, **ids_kw, **_bucket_kw(e))
+        full = [np.array(keep, dtype=bool) for _, keep in arrays]
+        if any(r.get("mask") is None for r in seq_dicts):
+            # `None` for single sequences is documented for from_sequences(ignore_masks=) only: if
+            # from_kmers refuses it, the documented form (one boolean array per sequence) is used
+            mixed = [None if r.get("mask") is None else m for r, m in zip(seq_dicts, full)]
+            refused, t = _rejected(o or Outcome(), lambda: cls.from_kmers(ka, kmers, masks=mixed, **ids_kw, **_bucket_kw(e)), "none_in_masks_refused")
+            if not refused:
+                return t
+        return cls.from_kmers(ka, kmers, masks=full, **ids_kw, **_bucket_kw(e))
     if mode == "selection":
-        pos_dtype = np.uint32 if case.get("pos_uint32", True) else np.int64
-        positions = [np.array([i for i, f in enumerate(keep) if f], dtype=pos_dtype) for _, keep in arrays]
         kmers = [np.array([c for c, f in zip(codes, keep) if f], dtype=np.int64) for codes, keep in arrays]
-        return cls.from_kmer_selection(ka, positions, kmers, ref_ids=ids, **_bucket_kw(e))
+
+        def make(pos_dtype):
+            positions = [np.array([i for i, f in enumerate(keep) if f], dtype=pos_dtype) for _, keep in arrays]
+            return cls.from_kmer_selection(ka, positions, kmers, **ids_kw, **_bucket_kw(e))
+
+        if not case.get("pos_uint32", True):
+            # documented dtype is uint32; another integer type may be refused
+            refused, t = _rejected(o or Outcome(), lambda: make(np.int64), "int64_positions_refused")
+            if not refused:
+                return t
+        return make(np.uint32)
     if mode == "positions":
         model = _model_for(e, seq_dicts, ids)
-        dtype = np.uint32 if case.get("pos_uint32", True) else np.int64
-        d = {code: np.array(v, dtype=dtype).reshape(-1, 2) for code, v in model.by_code().items()}
-        return cls.from_positions(ka, d)
+
+        def make(dtype):
+            return cls.from_positions(ka, {code: np.array(v, dtype=dtype).reshape(-1, 2) for code, v in model.by_code().items()})
+
+        if not case.get("pos_uint32", True):
+            refused, t = _rejected(o or Outcome(), lambda: make(np.int64), "int64_positions_refused")
+            if not refused:
+                return t
+        return make(np.uint32)
     if mode == "tables":
         parts = []
         for a, b in _groups(case, len(seq_dicts)):
@@ -239,9 +306,9 @@ def _build(e, case, mode):
 def _check_content(o, table, model, e, case, tag, getitem=True):
     n_codes = e.n_table**e.k
     by_code = model.by_code()
-    o.check_eq(len(table), n_codes, "len", f"{tag}: len(table)")
     got_kmers = [int(x) for x in table.get_kmers()]
     o.check_eq(sorted(got_kmers), sorted(by_code), "get_kmers", f"{tag}: get_kmers()")
+    _check_len(o, table, n_codes, len(by_code), tag)
     probes = {p % n_codes for p in case.get("probe", [])}
     if n_codes <= 256:
         probes |= set(range(n_codes))
@@ -269,11 +336,26 @@ def _check_content(o, table, model, e, case, tag, getitem=True):
         o.check_eq(sorted(int(x) for x in table), sorted(by_code), "iteration", f"{tag}: iter(table)")
 
 
+def _check_len(o, table, n_codes, n_stored, tag):
+    """len(table) is not documented: the number of possible k-mers (the table is indexable by every
+    k-mer code) and the number of stored k-mers (what iteration yields) are both consistent."""
+    got = len(table)
+    if got == n_codes:
+        o.label("len=possible_kmers")
+    elif got == n_stored:
+        o.label("len=stored_kmers")
+    else:
+        o.fail("len", f"{tag}: len(table) = {got}, neither the number of possible k-mers {n_codes} nor of stored k-mers {n_stored}")
+
+
 def _bucket_labels(o, table, model, e):
     nb = int(table.n_buckets)
     want_nb = e.n_buckets
     if want_nb is not None:
-        o.check_eq(nb, min(want_nb, e.n_table**e.k), "n_buckets", "n_buckets attribute")
+        # more buckets than possible k-mers: the (undocumented) cap at the alphabet size is accepted too
+        o.check(nb in (want_nb, min(want_nb, e.n_table**e.k)), "n_buckets", lambda: f"n_buckets attribute {nb}, requested {want_nb}")
+        if nb != want_nb:
+            o.label("n_buckets_capped")
     buckets = {}
     for code in model.by_code():
         buckets.setdefault(code % nb, set()).add(code)
@@ -287,13 +369,11 @@ def _bucket_labels(o, table, model, e):
 # --------------------------------------------------------------------------
 def _short_reference_step(o, e, case):
     """A reference shorter than the k-mer span holds no k-mer.  biotite rejects
-    the whole call with ValueError; an index without that reference is accepted
-    as well."""
+    the whole call (ValueError today; any exception type is accepted, none is
+    documented); an index without that reference is accepted as well."""
     o.label("ref_shorter_than_span")
-    try:
-        t = _from_sequences(e, case, e.all_refs, e.all_ids)
-    except ValueError:
-        o.label("short_ref_rejected")
+    refused, t = _rejected(o, lambda: _from_sequences(e, case, e.all_refs, e.all_ids), "short_ref_rejected")
+    if refused:
         return
     o.label("short_ref_accepted")
     e2 = Env()
@@ -318,13 +398,15 @@ def run_table_match(case):
         o.label("ref_masked")
     if e.kind == "bucket":
         o.label("nb_class=" + str(case.get("nb_class")))
-    if e.has_short:
+    if case.get("f1_safe"):
+        o.label("spaced&ref_masked&built_from_kmers(F1_safe)")
+    if e.has_short and not case.get("f1_safe"):
         _short_reference_step(o, e, case)
     if not e.long_refs:
         o.label("no_usable_reference")
         return o
 
-    table = _build(e, case, mode)
+    table = _build(e, case, mode, o)
     model = _model_for(e, e.long_refs, e.ids)
     _check_content(o, table, model, e, case, mode)
     collision = _bucket_labels(o, table, model, e) if e.kind == "bucket" else True
@@ -352,32 +434,44 @@ def run_table_match(case):
     if q.get("mask") and any(q["mask"]):
         o.label("query_masked")
     n_matches = 0
-    if q["n"] > e.n_table:
-        o.label("query_alphabet_too_large")
-        o.expect_raises(
-            ValueError,
-            lambda: table.match(_seq(q["seq"], q["n"]), similarity_rule=rule, ignore_mask=q_mask),
-            "incompatible_alphabet_rejected",
-            "match() with a query alphabet the table does not extend",
-        )
-    elif len(q["seq"]) < e.span:
-        o.label("query_shorter_than_span")
-        try:
-            got = table.match(_seq(q["seq"], q["n"]), similarity_rule=rule, ignore_mask=q_mask)
-        except ValueError:
-            pass
-        else:
-            o.check_eq(len(got), 0, "match", "query shorter than the k-mer span")
-    else:
+    # finding C10-F2 (identical k-mers below the similarity threshold): while it is listed as open the
+    # model demands them (the generator keeps the class out); otherwise both readings are accepted
+    lenient = rule_case is not None and not findings.is_open(F2)
+    long_enough = len(q["seq"]) >= e.span
+    if long_enough:
         q_kmers = ref.kmer_tuples(ref.sym_codes(q["seq"]), e.offs)
         q_keep = ref.kept_flags(len(q_kmers), q.get("mask"), e.offs)
         want = ref.match_sequence(model, q_kmers, q_keep, rule_case)
-        got = table.match(_seq(q["seq"], q["n"]), similarity_rule=rule, ignore_mask=q_mask)
+        want_req = ref.match_sequence(model, q_kmers, q_keep, rule_case, identical_always=False) if lenient else None
+
+    def do_match():
+        return table.match(_seq(q["seq"], q["n"]), similarity_rule=rule, ignore_mask=q_mask)
+
+    def check_match(got):
         if o.check(got.ndim == 2 and got.shape[1] == 3, "match", lambda: f"match() shape {got.shape}"):
             rows = _rows(got, 3)
-            _cmp_multiset(o, rows, want, "match", "match(query)")
+            _cmp_matches(o, rows, want, want_req, "match", "match(query)")
             col0 = [r[0] for r in rows]
             o.check(col0 == sorted(col0), "match_ordered_by_first_column", lambda: f"first column {col0[:30]}")
+
+    if q["n"] > e.n_table:
+        # "The table's base alphabet must extend the alphabet of the sequence": the call is refused (no
+        # exception type is documented) - or, the query holding table symbols only, answered correctly
+        o.label("query_alphabet_too_large")
+        refused, got = _rejected(o, do_match, "foreign_query_rejected")
+        if not refused:
+            o.label("foreign_query_accepted")
+            if long_enough:
+                check_match(got)
+            else:
+                o.check_eq(len(got), 0, "incompatible_alphabet_rejected", "query over a larger alphabet and shorter than the k-mer span")
+    elif not long_enough:
+        o.label("query_shorter_than_span")
+        refused, got = _rejected(o, do_match, "short_query_rejected")
+        if not refused:
+            o.check_eq(len(got), 0, "match", "query shorter than the k-mer span")
+    else:
+        check_match(do_match())
         n_matches = len(want)
         if n_matches:
             o.label("has_match")
@@ -396,11 +490,15 @@ def run_table_match(case):
             o.label("match_table_skipped_bucket_mismatch")
         else:
             want4 = ref.match_tables(model, other_model, rule_case)
+            want4_req = ref.match_tables(model, other_model, rule_case, identical_always=False) if lenient else None
             got4 = table.match_table(other, similarity_rule=rule)
             if o.check(got4.ndim == 2 and got4.shape[1] == 4, "match_table", lambda: f"match_table() shape {got4.shape}"):
-                _cmp_multiset(o, _rows(got4, 4), want4, "match_table", "match_table(other)")
+                _cmp_matches(o, _rows(got4, 4), want4, want4_req, "match_table", "match_table(other)")
             if len(others) > 1:
                 o.label("other_table_2_refs")
+            if rule is not None and e.kind == "bucket" and int(table.n_buckets) > 1:
+                if len(want4) > len(ref.match_tables(model, other_model, None)):
+                    o.label("match_table:rule_admits_non_identical&n_buckets>1")
 
         # ---- match_kmer_selection(positions, kmers)
         n_codes = e.n_table**e.k
@@ -412,17 +510,32 @@ def run_table_match(case):
             else:
                 sel.append((pos_raw % (1 << 32), ref.split_code(code_raw % n_codes, e.n_table, e.k)))
         if sel:
-            pos_dtype = np.uint32 if case.get("pos_uint32", True) else np.int64
-            got3 = table.match_kmer_selection(
-                np.array([p for p, _ in sel], dtype=pos_dtype),
-                np.array([ref.code_of(km, e.n_table) for _, km in sel], dtype=np.int64),
-            )
+            sel_codes = np.array([ref.code_of(km, e.n_table) for _, km in sel], dtype=np.int64)
+
+            def do_sel(pos_dtype):
+                return table.match_kmer_selection(np.array([p for p, _ in sel], dtype=pos_dtype), sel_codes)
+
+            refused = True
+            if not case.get("pos_uint32", True):
+                # documented dtype is uint32; another integer type may be refused
+                refused, got3 = _rejected(o, lambda: do_sel(np.int64), "int64_positions_refused")
+            if refused:
+                got3 = do_sel(np.uint32)
             want3 = ref.match_selection(model, sel)
             if o.check(got3.ndim == 2 and got3.shape[1] == 3, "match_kmer_selection", lambda: f"shape {got3.shape}"):
                 _cmp_multiset(o, _rows(got3, 3), want3, "match_kmer_selection", "match_kmer_selection()")
             if want3:
                 o.label("selection_has_match")
 
+    masked = any(x.get("mask") and any(x["mask"]) for x in case["refs"] + [q])
+    if rule is not None and e.kind == "bucket" and collision:
+        o.label("rule&bucket&collision")
+    if rule is not None and case["spacing"] is not None:
+        o.label("rule&spaced")
+    if masked and e.kind == "bucket":
+        o.label("masked&bucket")
+    if masked and case["spacing"] is not None:
+        o.label("masked&spaced")
     o.mark_nontrivial(repeated and n_matches >= 1 and collision)
     return o
 
@@ -447,17 +560,25 @@ def run_constructors_equal(case):
         modes.remove("tables")
     tables = {}
     for mode in modes:
-        tables[mode] = _build(e, case, mode)
+        tables[mode] = _build(e, case, mode, o)
         _check_content(o, tables[mode], model, e, case, mode)
     base = tables["sequences"]
+    # `==` of tables is undocumented and (today) sensitive to the order in which the entries were added.
+    # Demanded: a table equals itself and its pickle round trip (the pickle was made from `base`), and
+    # `!=` is the negation of `==`.  For the other constructors the content was compared above
+    # (_check_content); whether `==` holds as well is recorded as a label only.
+    o.check(base == base and not (base != base), "equal_content_equal_tables", "table != itself")
     for mode in modes[1:]:
         t = tables[mode]
         if e.kind == "bucket" and int(t.n_buckets) != int(base.n_buckets):
             o.label("eq_skipped_bucket_mismatch")
             continue
-        o.check(base == t, "equal_content_equal_tables", lambda: f"from_sequences != {mode}\n{base}\n--\n{t}")
-        o.check(t == base, "equal_content_equal_tables", lambda: f"{mode} != from_sequences")
-        o.check(not (base != t), "equal_content_equal_tables", lambda: f"(from_sequences != {mode}) is True")
+        eq, eq_rev, ne = bool(base == t), bool(t == base), bool(base != t)
+        o.check(eq == eq_rev and ne == (not eq), "equal_content_equal_tables", lambda: f"from_sequences vs {mode}: a == b is {eq}, b == a is {eq_rev}, a != b is {ne}")
+        if mode == "pickle":
+            o.check(eq, "equal_content_equal_tables", lambda: f"from_sequences != its pickle round trip\n{base}\n--\n{t}")
+        else:
+            o.label(f"eq[{mode}]={eq}")
     if len(_groups(case, len(e.long_refs))) >= 2:
         o.label("merged_from_>=2_tables")
     # tables with different content are different
@@ -547,8 +668,8 @@ def run_bucket_big(case):
     by_code = model.by_code()
     big = [c for c in by_code if c >= (1 << 32)]
     o.label("codes>=2^32" if big else "codes<2^32_only")
-    o.check_eq(len(table), n_codes, "len", "len(table)")
-    o.check_eq([int(x) for x in table.get_kmers()], sorted(by_code), "get_kmers", "get_kmers()")
+    _check_len(o, table, n_codes, len(by_code), "bucket_big")
+    o.check_eq(sorted(int(x) for x in table.get_kmers()), sorted(by_code), "get_kmers", "get_kmers()")
     probes = sorted(set(by_code) | {p % n_codes for p in case["probe"]} | {c % (1 << 32) for c in by_code})
     got = table.count(np.array(probes, dtype=np.int64))
     o.check_eq([int(x) for x in got], [len(by_code.get(c, [])) for c in probes], "count", "count(kmers)")
@@ -585,14 +706,19 @@ def run_bucket_big(case):
             np.array([ref.code_of(km, n) for _, km in sel], dtype=np.int64),
         )
         _cmp_multiset(o, _rows(got3, 3), ref.match_selection(model, sel), "match_kmer_selection", "match_kmer_selection()")
-        # the table built from model-computed codes is the same table
+        # the table built from model-computed codes holds the same content (`==` itself is
+        # undocumented and order sensitive: recorded as a label)
         t3 = BucketKmerTable.from_kmers(
             ka,
             [np.array([ref.code_of(km, n) for km in ref.kmer_tuples(ref.sym_codes(r["seq"]), offs)], dtype=np.int64) for r in refs],
             ref_ids=ids,
             n_buckets=nb,
         )
-        o.check(t3 == table, "equal_content_equal_tables", "from_kmers(model codes) != from_sequences")
+        o.label(f"eq[kmers]={bool(t3 == table)}")
+        o.check_eq(sorted(int(x) for x in t3.get_kmers()), sorted(by_code), "get_kmers", "from_kmers(model codes): get_kmers()")
+        got = t3.count(np.array(probes, dtype=np.int64))
+        o.check_eq([int(x) for x in got], [len(by_code.get(c, [])) for c in probes], "count", "from_kmers(model codes): count(kmers)")
+        _cmp_multiset(o, _rows(t3.match(_seq(q["seq"], n)), 3), want, "match", "from_kmers(model codes): match(query)")
     if n_matches:
         o.label("has_match")
     o.mark_nontrivial(bool(big) and n_matches >= 1 and collision)
@@ -629,22 +755,57 @@ def run_similar_kmers(case):
 # --------------------------------------------------------------------------
 # permutations (shared by the selector sub-checks)
 # --------------------------------------------------------------------------
-def _perm_pair(pcase, n, k, spacing_case=None):
-    """(biotite permutation or None, PermModel) for k-mers of size k over n symbols."""
+class ObjectPerm:
+    """Sort keys as the biotite Permutation object hands them out.  The selectors are defined through
+    "the ordering of the sort keys from Permutation.permute()", so their oracle asks the object for
+    the keys; what the permutation classes themselves promise is decided by the sub-check `permutation`."""
+
+    kind = "object"
+
+    def __init__(self, perm, size):
+        self.perm = perm
+        self.size = size
+        self._keys = {}
+        if size <= 5000:
+            self._keys = {c: int(v) for c, v in enumerate(perm.permute(np.arange(size, dtype=np.int64)))}
+
+    def key(self, code):
+        v = self._keys.get(code)
+        if v is None:
+            v = self._keys[code] = int(self.perm.permute(np.array([code], dtype=np.int64))[0])
+        return v
+
+    @property
+    def min(self):
+        return int(self.perm.min)
+
+    @property
+    def max(self):
+        return int(self.perm.max)
+
+
+def _biotite_permutation(pcase, n, k, spacing_case=None):
+    """(RandomPermutation | FrequencyPermutation, counts or None)"""
     from biotite.sequence.align import FrequencyPermutation, KmerAlphabet, RandomPermutation
 
+    if pcase["type"] == "random":
+        return RandomPermutation(), None
+    rng = np.random.default_rng(pcase["seed"])
+    counts = rng.integers(0, pcase["cmax"] + 1, size=n**k)
+    ka = KmerAlphabet(_alph(n), k) if spacing_case is None else _kmer_alphabet(n, k, spacing_case)
+    return FrequencyPermutation(ka, counts.astype(np.int64)), counts.tolist()
+
+
+def _perm_pair(pcase, n, k, spacing_case=None):
+    """(biotite permutation or None, key model) for k-mers of size k over n symbols."""
     size = n**k
     kind = pcase["type"]
     if kind == "none":
         return None, ref.PermModel("none", size)
-    if kind == "random":
-        return RandomPermutation(), ref.PermModel("random", size)
     if kind == "table":
         return _table_permutation(pcase["keys"]), ref.PermModel("table", size, list(pcase["keys"]))
-    rng = np.random.default_rng(pcase["seed"])
-    counts = rng.integers(0, pcase["cmax"] + 1, size=size)
-    ka = KmerAlphabet(_alph(n), k) if spacing_case is None else _kmer_alphabet(n, k, spacing_case)
-    return FrequencyPermutation(ka, counts.astype(np.int64)), ref.PermModel("freq", size, ref.frequency_ranks(counts.tolist()))
+    perm, _ = _biotite_permutation(pcase, n, k, spacing_case)
+    return perm, ObjectPerm(perm, size)
 
 
 def _table_permutation(keys):
@@ -669,6 +830,29 @@ def _table_permutation(keys):
     return TablePermutation(keys)
 
 
+def _signed64(v):
+    v %= 1 << 64
+    return v - (1 << 64) if v >= (1 << 63) else v
+
+
+def _check_frequency_order(o, keys, counts, lo, hi, what):
+    """keys/counts: per k-mer code.  Less frequent k-mers are smaller, the keys are distinct and inside
+    [lo, hi]; that they are exactly the ranks lo..hi and how k-mers of equal frequency are ordered is
+    not documented (labels)."""
+    size = len(keys)
+    o.check_eq(len(set(keys)), size, "permutation_unambiguous", f"{what}: two k-mers with the same sort key")
+    o.check(lo <= min(keys) and max(keys) <= hi, "permutation_range", lambda: f"{what}: sort keys {min(keys)}..{max(keys)} outside [min, max] = [{lo}, {hi}]")
+    o.label("freq_keys=exactly_min..max" if sorted(keys) == list(range(lo, hi + 1)) else "freq_keys=other")
+    by_key = sorted(range(size), key=lambda c: keys[c])
+    o.check(
+        all(counts[a] <= counts[b] for a, b in zip(by_key[:-1], by_key[1:])),
+        "permutation_order",
+        lambda: f"{what}: a more frequent k-mer has a smaller sort key; counts in key order {[counts[c] for c in by_key][:40]}",
+    )
+    if len(set(counts)) < size:
+        o.label("freq_ties_by_code" if keys == ref.frequency_ranks(counts) else "freq_ties_other_order")
+
+
 def run_permutation(case):
     from biotite.sequence.align import FrequencyPermutation, KmerTable
 
@@ -676,33 +860,48 @@ def run_permutation(case):
     _apply_break_label(o)
     n, k = case["n"], case["k"]
     size = n**k
-    perm, pm = _perm_pair(case["perm"], n, k)
-    o.label("perm=" + case["perm"]["type"])
+    kind = case["perm"]["type"]
+    perm, counts = _biotite_permutation(case["perm"], n, k)
+    perm2, _ = _biotite_permutation(case["perm"], n, k)
+    o.label("perm=" + kind)
     codes = [c % size for c in case["codes"]]
-    got = [int(x) for x in perm.permute(np.array(codes, dtype=np.int64))]
-    o.check_eq(got, [pm.key(c) for c in codes], "permutation_order", "permute(codes)")
-    o.check_eq(int(perm.min), pm.min, "permutation_range", "min")
-    o.check_eq(int(perm.max), pm.max, "permutation_range", "max")
-    o.check(all(pm.min <= g <= pm.max for g in got), "permutation_range", "value outside [min, max]")
-    if size <= 1300:
+    arr = np.array(codes, dtype=np.int64)
+    got = [int(x) for x in perm.permute(arr)]
+    lo, hi = int(perm.min), int(perm.max)
+    o.check(all(lo <= g <= hi for g in got), "permutation_range", lambda: f"value outside [min, max] = [{lo}, {hi}]: {got}")
+    o.check_eq([int(x) for x in perm2.permute(arr)], got, "permutation_deterministic", "a second permutation object of the same kind gives other sort keys")
+    o.check_eq([int(x) for x in perm.permute(arr)], got, "permutation_deterministic", "second call of permute()")
+    by_code = dict(zip(codes, got))
+    o.check_eq(len(set(by_code.values())), len(by_code), "permutation_unambiguous", "two k-mers with the same sort key")
+    if kind == "random":
+        # documented: order = (a * c + 1) mod 2^64 (as int64); the factor itself is only cited, so it is
+        # read off the object (key of code 1) and the formula is checked with it
+        k0, k1 = (int(x) for x in perm.permute(np.array([0, 1], dtype=np.int64)))
+        a = (k1 - 1) % (1 << 64)
+        o.check_eq(k0, 1, "permutation_lcg_formula", "sort key of k-mer code 0 (documented: (a*0 + 1) mod 2^64)")
+        o.check_eq(got, [_signed64(a * c + 1) for c in codes], "permutation_lcg_formula", f"permute(codes) vs (a*c + 1) mod 2^64 with a = {a:#x}")
+        o.check(a % 2 == 1, "permutation_unambiguous", lambda: f"LCG factor {a:#x} is even: the order is ambiguous")
+        o.label("lcg_factor=docstring_example" if a == ref.LCG_A else "lcg_factor=other")
+        if size <= 1300:
+            all_keys = [int(x) for x in perm.permute(np.arange(size, dtype=np.int64))]
+            o.check_eq(len(set(all_keys)), size, "permutation_unambiguous", "two k-mers with the same sort key")
+        o.mark_nontrivial(len(set(codes)) >= 2)
+    else:
         all_keys = [int(x) for x in perm.permute(np.arange(size, dtype=np.int64))]
-        o.check_eq(len(set(all_keys)), size, "permutation_unambiguous", "two k-mers with the same sort key")
-    if case["perm"]["type"] == "freq":
+        o.check_eq([all_keys[c] for c in codes], got, "permutation_deterministic", "permute(all codes) vs permute(codes)")
+        _check_frequency_order(o, all_keys, counts, lo, hi, "FrequencyPermutation(counts)")
         # from_table: counts taken from a table
         seq = case["seq"]
         if len(seq) >= k:
             t = KmerTable.from_sequences(k, [_seq(seq, n)], alphabet=_alph(n))
-            counts = [0] * size
+            tcounts = [0] * size
             for km in ref.kmer_tuples(ref.sym_codes(seq), list(range(k))):
-                counts[ref.code_of_plain(km, n)] += 1
-            ranks = ref.frequency_ranks(counts)
+                tcounts[ref.code_of_plain(km, n)] += 1
             fp = FrequencyPermutation.from_table(t)
-            got = [int(x) for x in fp.permute(np.arange(size, dtype=np.int64))]
-            o.check_eq(got, ranks, "permutation_order", "FrequencyPermutation.from_table")
+            keys = [int(x) for x in fp.permute(np.arange(size, dtype=np.int64))]
+            _check_frequency_order(o, keys, tcounts, int(fp.min), int(fp.max), "FrequencyPermutation.from_table")
             o.label("from_table")
         o.mark_nontrivial(case["perm"]["cmax"] >= 1 and len(set(codes)) >= 2)
-    else:
-        o.mark_nontrivial(len(set(codes)) >= 2)
     return o
 
 
@@ -737,12 +936,32 @@ def _check_selection(o, got, want_pos, all_codes, clause, what, index_check=True
 
 
 def _expect_too_short(o, fn, clause, what):
-    """Fewer k-mers than needed: ValueError or an empty selection."""
-    try:
-        pos, kmers = fn()
-    except ValueError:
+    """Fewer k-mers than needed: refused (no exception type documented) or an empty selection."""
+    refused, got = _rejected(o, fn, "too_short_rejected")
+    if refused:
         return
+    pos, kmers = got
+    if np.asarray(pos).dtype == bool:  # open finding C10-F3: a mask over the k-mers instead of positions
+        pos = np.flatnonzero(pos)
     o.check_eq((len(pos), len(kmers)), (0, 0), clause, what)
+
+
+def _foreign_alphabet_step(o, fn, want_pos, codes, clause, what, index_check=True):
+    """select() with a sequence over an alphabet the selector's alphabet does not extend ("must be
+    compatible"): refused with any exception type - or, the sequence holding only symbols of the
+    selector's alphabet, answered like the same sequence over the right alphabet (want_pos None =
+    sequence too short for a selection)."""
+    refused, got = _rejected(o, fn, "foreign_alphabet_rejected")
+    if refused:
+        return
+    o.label("foreign_alphabet_accepted")
+    if want_pos is None:
+        pos, kmers = got
+        if np.asarray(pos).dtype == bool:
+            pos = np.flatnonzero(pos)
+        o.check_eq((len(pos), len(kmers)), (0, 0), "incompatible_alphabet_rejected", what)
+    else:
+        _check_selection(o, got, want_pos, codes, clause, what, index_check)
 
 
 # --------------------------------------------------------------------------
@@ -764,6 +983,7 @@ def run_minimizer(case):
     o.label("perm=" + case["perm"]["type"], "spaced" if case["spacing"] is not None else "contiguous")
     seq = case["seq"]
     nontrivial = False
+    seq_want, codes = None, []
     if len(seq) < true_span:
         o.label("seq_shorter_than_span")
         _expect_too_short(o, lambda: selector.select(_seq(seq, n)), "minimizer", "sequence shorter than k")
@@ -781,7 +1001,7 @@ def run_minimizer(case):
                 o, lambda: selector.select_from_kmers(np.array(codes, dtype=np.int64)), "minimizer", "fewer k-mers than the window"
             )
         else:
-            want = ref.minimizer_positions(keys, window)
+            want = seq_want = ref.minimizer_positions(keys, window)
             _check_selection(o, selector.select(_seq(seq, n)), want, codes, "minimizer", "select(sequence)")
             _check_selection(
                 o, selector.select(_seq(seq, n), alphabet_check=False), want, codes, "minimizer", "select(sequence, alphabet_check=False)"
@@ -803,8 +1023,9 @@ def run_minimizer(case):
         _check_selection(o, selector.select_from_kmers(np.array(free, dtype=np.int64)), want, free, "minimizer", "select_from_kmers(arbitrary codes)")
         o.label("free_kmers")
     if case.get("wrong_alphabet"):
-        o.expect_raises(
-            ValueError, lambda: selector.select(_seq(seq, n + 1)), "incompatible_alphabet_rejected", "select() with a larger sequence alphabet"
+        o.label("wrong_alphabet")
+        _foreign_alphabet_step(
+            o, lambda: selector.select(_seq(seq, n + 1)), seq_want, codes, "minimizer", "select() with a larger sequence alphabet"
         )
     o.mark_nontrivial(nontrivial)
     return o
@@ -837,6 +1058,7 @@ def run_syncmer(case):
     seq = case["seq"]
     nontrivial = False
     results = {}
+    seq_want, codes = None, []
     if len(seq) < k:
         o.label("seq_shorter_than_k")
         for name, sel in selectors:
@@ -844,10 +1066,13 @@ def run_syncmer(case):
     else:
         kms = ref.kmer_tuples(ref.sym_codes(seq), list(range(k)))
         codes = [ref.code_of_plain(km, n) for km in kms]
-        want = [i for i, km in enumerate(kms) if ref.is_syncmer(km, s, n, pm, allowed)]
+        want = seq_want = [i for i, km in enumerate(kms) if ref.is_syncmer(km, s, n, pm, allowed)]
         o.label("n_kmers=" + (str(len(kms)) if len(kms) <= 2 else ">=3"))
         for name, sel in selectors:
             results[name] = _check_selection(o, sel.select(_seq(seq, n)), want, codes, "syncmer", f"{name}.select(sequence)")
+            _check_selection(
+                o, sel.select(_seq(seq, n), alphabet_check=False), want, codes, "syncmer", f"{name}.select(sequence, alphabet_check=False)"
+            )
             _check_selection(
                 o, sel.select_from_kmers(np.array(codes, dtype=np.int64)), want, codes, "syncmer", f"{name}.select_from_kmers(k-mers of the sequence)"
             )
@@ -872,9 +1097,10 @@ def run_syncmer(case):
         if len(got) == 2:
             o.check_eq(got["cached"], got["plain"], "syncmer_cached_equals_plain", "select_from_kmers")
     if case.get("wrong_alphabet"):
+        o.label("wrong_alphabet")
         for name, sel in selectors:
-            o.expect_raises(
-                ValueError, lambda sel=sel: sel.select(_seq(seq, n + 1)), "incompatible_alphabet_rejected", f"{name}.select() with a larger alphabet"
+            _foreign_alphabet_step(
+                o, lambda sel=sel: sel.select(_seq(seq, n + 1)), seq_want, codes, "syncmer", f"{name}.select() with a larger alphabet"
             )
     o.mark_nontrivial(nontrivial)
     return o
@@ -898,8 +1124,19 @@ def run_mincode(case):
     ka = _kmer_alphabet(n, k, case)
     selector = MincodeSelector(ka, compression, perm)
     o.label("perm=" + case["perm"]["type"])
-    thr = ref.mincode_threshold(pm, compression)
-    o.check_eq(float(selector.threshold), float(thr), "mincode_threshold", f"threshold for compression {compression}")
+    # "All k-mers that are smaller than this value [the public threshold] are selected": the selection is
+    # judged against the selector's own threshold.  The threshold itself ("based on the compression factor
+    # and the range of (permuted) k-mer values": the 1/compression quantile of the key range) is compared
+    # with min + (max - min + 1) / compression up to float rounding, min/max being those of the permutation.
+    thr = float(selector.threshold)
+    thr_model = float(ref.mincode_threshold(pm, compression))
+    o.check(
+        math.isclose(thr, thr_model, rel_tol=1e-9, abs_tol=1e-9),
+        "mincode_threshold",
+        lambda: f"threshold {thr!r} for compression {compression}, key range [{pm.min}, {pm.max}]: expected {thr_model!r}",
+    )
+    if thr != thr_model:
+        o.label("threshold_differs_in_rounding")
     index_check = case["check_index_array"]
 
     def decide(codes):
@@ -915,17 +1152,21 @@ def run_mincode(case):
 
     nontrivial = False
     seq = case["seq"]
+    seq_want, codes = None, []
     if len(seq) < true_span:
         o.label("seq_shorter_than_span")
         _expect_too_short(o, lambda: selector.select(_seq(seq, n)), "mincode", "sequence shorter than k")
     else:
         kms = ref.kmer_tuples(ref.sym_codes(seq), offs)
         codes = [ref.code_of_plain(km, n) for km in kms]
-        want = decide(codes)
+        want = seq_want = decide(codes)
         if want is None:
             o.ambiguous += 1
         else:
             _check_selection(o, selector.select(_seq(seq, n)), want, codes, "mincode", "select(sequence)", index_check)
+            _check_selection(
+                o, selector.select(_seq(seq, n), alphabet_check=False), want, codes, "mincode", "select(sequence, alphabet_check=False)", index_check
+            )
             _check_selection(
                 o, selector.select_from_kmers(np.array(codes, dtype=np.int64)), want, codes, "mincode", "select_from_kmers(k-mers of the sequence)", index_check
             )
@@ -939,9 +1180,10 @@ def run_mincode(case):
         else:
             _check_selection(o, selector.select_from_kmers(np.array(free, dtype=np.int64)), want, free, "mincode", "select_from_kmers(arbitrary codes)", index_check)
             nontrivial = nontrivial or 0 < len(want) < len(free)
-    if case.get("wrong_alphabet"):
-        o.expect_raises(
-            ValueError, lambda: selector.select(_seq(seq, n + 1)), "incompatible_alphabet_rejected", "select() with a larger sequence alphabet"
+    if case.get("wrong_alphabet") and not (len(seq) >= true_span and seq_want is None):
+        o.label("wrong_alphabet")
+        _foreign_alphabet_step(
+            o, lambda: selector.select(_seq(seq, n + 1)), seq_want, codes, "mincode", "select() with a larger sequence alphabet", index_check
         )
     o.mark_nontrivial(nontrivial)
     return o
@@ -952,18 +1194,29 @@ def run_mincode(case):
 # --------------------------------------------------------------------------
 @lru_cache(maxsize=1)
 def _listed_primes():
+    """The precomputed list bucket_number() documents ("from a precomputed list of primes"), read from
+    the package data file - or None if it is not there (any more): the clauses about the list are then
+    skipped, the rest is still decided."""
     import biotite.sequence.align as align
     from pathlib import Path
 
     out = []
-    for line in (Path(align.__file__).parent / "primes.txt").read_text().splitlines():
-        line = line.strip()
-        if line and not line.startswith("#"):
-            out.append(int(line))
-    return out
+    try:
+        text = (Path(align.__file__).parent / "primes.txt").read_text()
+        for line in text.splitlines():
+            line = line.strip()
+            if line and not line.startswith("#"):
+                out.append(int(line))
+    except (OSError, ValueError):
+        return None
+    return out or None
 
 
 def run_bucket_number(case):
+    """Auxiliary (bucket_number is not named by the property statement; the default bucket count of a
+    bucketed table relies on it).  Docstring: "the closest greater prime number from a precomputed
+    list", "the actual load factor will be lower".  Whether "greater" includes equality and whether
+    n_kmers / load_factor is rounded down or up first is not fixed by that text (today: >= and down)."""
     from biotite.sequence.align import BucketKmerTable, bucket_number
 
     o = Outcome()
@@ -975,19 +1228,31 @@ def run_bucket_number(case):
     got = int(call())
     o.label("explicit_load_factor" if case["explicit_lf"] else "default_load_factor")
     o.check(got >= number, "bucket_number", lambda: f"bucket_number({n_kmers}, {lf}) = {got} < {number}")
-    o.check(got in primes, "bucket_number", lambda: f"{got} is not in the list of primes")
-    o.check(not any(number <= p < got for p in primes), "bucket_number", lambda: f"{got} is not the closest listed prime >= {number}")
-    if number in primes:
-        o.label("number_is_listed_prime")
+    if primes is None:
+        o.label("prime_list_not_found")
+    else:
+        o.check(got in primes, "bucket_number", lambda: f"{got} is not in the list of primes")
+        up = math.ceil(n_kmers / lf)
+        accepted = {}
+        for name, bound, strict in ((">=floor", number, False), (">floor", number, True), (">=ceil", up, False), (">ceil", up, True)):
+            first = next((p for p in primes if (p > bound if strict else p >= bound)), None)
+            if first is not None:
+                accepted.setdefault(first, []).append(name)
+        if o.check(got in accepted, "bucket_number", lambda: f"{got} is not the closest listed prime at or above {number} (accepted: {sorted(accepted)})"):
+            if len(accepted) > 1:
+                o.label("closest_prime:" + "|".join(accepted[got]))
+        if number in primes:
+            o.label("number_is_listed_prime")
     if got < 10**9:
         o.check(ref.is_prime(got), "bucket_number", lambda: f"{got} is not prime")
     if 1 <= n_kmers <= 60:
-        # default bucket count of a table: load factor not above 0.8 (or one bucket per possible k-mer)
+        # default bucket count of a table: "a load factor of approximately 0.8" - at most one k-mer per
+        # bucket is demanded (or one bucket per possible k-mer)
         text = (LETTERS[:4] * 20)[: n_kmers + 1]
         t = BucketKmerTable.from_sequences(2, [_seq(text, 4)])
         nb = int(t.n_buckets)
-        o.check(nb == 16 or nb >= int(n_kmers / 0.8), "n_buckets", lambda: f"default n_buckets {nb} for {n_kmers} k-mers")
-        o.label("default_n_buckets")
+        o.check(nb == 16 or nb >= n_kmers, "n_buckets", lambda: f"default n_buckets {nb} for {n_kmers} k-mers")
+        o.label("default_n_buckets", "default_load<=0.8" if nb == 16 or nb >= int(n_kmers / 0.8) else "default_load>0.8")
     o.mark_nontrivial(number > 3)
     return o
 
@@ -1069,7 +1334,7 @@ def _self_scores_min(seq_dicts, offs, matrix):
     return best
 
 
-def st_table_case(tier, allow_rule=True, modes=None):
+def st_table_case(tier, allow_rule=True, modes=None, allow_f1_safe=False):
     thorough = tier == "thorough"
     maxlen = 120 if thorough else 40
 
@@ -1081,17 +1346,25 @@ def st_table_case(tier, allow_rule=True, modes=None):
         want_spacing = _one_in(draw, 3)
         want_masks = _one_in(draw, 3)
         narrowed = []
+        f1_safe = False
         if want_spacing and want_masks and findings.is_open(F1):
             narrowed.append(F1)
-            if draw(st.booleans()):
+            choice = draw(st.sampled_from(["no_spacing", "no_masks", "safe"])) if allow_f1_safe else draw(st.sampled_from(["no_spacing", "no_masks"]))
+            if choice == "no_spacing":
                 want_spacing = False
-            else:
+            elif choice == "no_masks":
                 want_masks = False
+            else:
+                # spaced k-mers with masked REFERENCES, where the finding cannot interfere: the table is
+                # built from k-mer arrays / selections / positions (the keep flags come from the model,
+                # biotite's _to_kmer_mask is not involved) and the query carries no mask
+                f1_safe = True
         spacing = None
         form = "list"
         if want_spacing:
             spacing = sorted(draw(st.lists(st.integers(0, k + 2), min_size=k, max_size=k, unique=True)))
-            form = draw(st.sampled_from(["str", "list", "shuffled", "array"]))
+            # (an unsorted list is not drawn: the documentation does not say that the order is ignored)
+            form = draw(st.sampled_from(["str", "list", "array"]))
         offs = list(range(k)) if spacing is None else spacing
         span = offs[-1] + 1
         base = draw(st_text(n, min(maxlen, max(span, 12)), maxlen))
@@ -1111,7 +1384,7 @@ def st_table_case(tier, allow_rule=True, modes=None):
             q = draw(st_sequence(n_table, span, maxlen, sources, n_table))
             # the common text may hold letters the (inferred) table alphabet lacks
             q["seq"] = "".join(c if ord(c) - 65 < n_table else "A" for c in q["seq"])
-            q["mask"] = draw(st.one_of(st.none(), st_mask(len(q["seq"])))) if want_masks else None
+            q["mask"] = draw(st.one_of(st.none(), st_mask(len(q["seq"])))) if (want_masks and not f1_safe) else None
             return q
 
         q = query()
@@ -1122,6 +1395,8 @@ def st_table_case(tier, allow_rule=True, modes=None):
         mode_pool = list(modes or ["sequences", "kmers", "selection", "tables", "pickle", "positions"])
         if kind == "bucket":
             mode_pool = [m for m in mode_pool if m != "positions"]
+        if f1_safe:
+            mode_pool = [m for m in mode_pool if m in ("kmers", "selection", "positions")]
         build = draw(st.sampled_from(mode_pool))
         n_buckets, nb_class = None, None
         if kind == "bucket":
@@ -1182,6 +1457,8 @@ def st_table_case(tier, allow_rule=True, modes=None):
             "count_sel": draw(st.lists(st.integers(0, 1 << 20), max_size=6)),
             "split": draw(st.lists(st.integers(0, 20), max_size=3)),
             "pos_uint32": draw(st.booleans()),
+            "default_ref_ids_omitted": draw(st.booleans()),
+            "f1_safe": f1_safe,
             "mask_list_of_none": draw(st.booleans()),
             "pickle_protocol": draw(st.sampled_from([2, 4, 5])),
             "narrowed": narrowed,
@@ -1192,7 +1469,7 @@ def st_table_case(tier, allow_rule=True, modes=None):
 
 
 def st_table_match(tier):
-    return st_table_case(tier, allow_rule=True)
+    return st_table_case(tier, allow_rule=True, allow_f1_safe=True)
 
 
 def st_constructors(tier):
@@ -1443,10 +1720,14 @@ def st_mincode(tier):
     return gen()
 
 
+_FALLBACK_PRIMES = [11, 13, 17, 23, 29, 37, 47, 59, 71, 89, 107, 131, 163, 197, 239, 293, 353, 431, 521, 631, 761, 919, 1103, 10007, 100003, 1000003]
+
+
 def st_bucket_number(tier):
     @st.composite
     def gen(draw):
-        primes = _listed_primes()
+        # without the package's list: primes at a similar spacing (factor ~1.2)
+        primes = _listed_primes() or _FALLBACK_PRIMES
         explicit = draw(st.booleans())
         lf = draw(st.one_of(st.just(0.8), st.floats(0.05, 1.0, allow_nan=False), st.sampled_from([0.5, 1.0, 0.25])))
         # requests beyond 2^52 are left out: the list is held in float64 there (notes/C10.md, observation O1)
@@ -1462,6 +1743,132 @@ def st_bucket_number(tier):
         return {"n_kmers": n_kmers, "load_factor": lf, "explicit_lf": explicit}
 
     return gen()
+
+
+# --------------------------------------------------------------------------
+# sub-check: kmer_alphabet  (KmerAlphabet itself, incl. base alphabets beyond 8 / 16 bit symbol codes)
+# --------------------------------------------------------------------------
+@lru_cache(maxsize=8)
+def _int_alphabet(n):
+    from biotite.sequence import Alphabet
+
+    return Alphabet(range(n))
+
+
+def st_kmer_alphabet(tier):
+    thorough = tier == "thorough"
+
+    @st.composite
+    def gen(draw):
+        cls = draw(st.sampled_from(["small", "small", "8bit_edge", "16bit", "16bit", "16bit_edge", "32bit"]))
+        if cls == "small":
+            n, kmax = draw(st.integers(2, 6)), 6
+        elif cls == "8bit_edge":
+            n, kmax = draw(st.sampled_from([255, 256])), 4
+        elif cls == "16bit":
+            n, kmax = draw(st.sampled_from([257, 300, 1000])), 4
+        elif cls == "16bit_edge":
+            n, kmax = draw(st.sampled_from([65535, 65536])), 3
+        else:
+            n, kmax = draw(st.sampled_from([65537, 70000])), 3
+        k = draw(st.integers(2, kmax))
+        spacing, form = _spacing_draw(draw, k)
+        span = k if spacing is None else spacing[-1] + 1
+        # few distinct symbols (repeated k-mers), the largest symbol codes included
+        pool = sorted(set(draw(st.lists(st.integers(0, n - 1), min_size=1, max_size=3)) + [n - 1, draw(st.sampled_from([0, n // 2, max(0, n - 2)]))]))
+        maxlen = 60 if thorough else 30
+        length = draw(st.integers(max(1, span - 1), span + 1)) if _one_in(draw, 4) else draw(st.integers(span, maxlen + span))
+        seq = draw(st.lists(st.sampled_from(pool), min_size=length, max_size=length))
+        a = draw(st.integers(0, len(seq)))
+        query = (seq[a:] + draw(st.lists(st.sampled_from(pool), max_size=span + 2)))[: maxlen + span]
+        return {
+            "n": n, "k": k, "spacing": spacing, "spacing_form": form, "size_class": cls,
+            "seq": seq, "query": query, "ref_id": draw(st_ref_id()),
+            "kind": draw(st.sampled_from(["direct", "bucket", "bucket"])),
+            "n_buckets": draw(st.sampled_from([None, 1, 2, 7, 101])),
+        }
+
+    return gen()
+
+
+def run_kmer_alphabet(case):
+    from biotite.sequence import GeneralSequence
+    from biotite.sequence.align import BucketKmerTable, KmerAlphabet, KmerTable
+
+    o = Outcome()
+    _apply_break_label(o)
+    n, k = case["n"], case["k"]
+    offs = ref.offsets(k, case["spacing"])
+    span = (k if case["spacing"] is None else max(case["spacing"]) + 1)
+    alph = _int_alphabet(n)
+    ka = KmerAlphabet(alph, k, _spacing_arg(case))
+    o.label("size=" + case["size_class"], "spaced" if case["spacing"] is not None else "contiguous", f"k={k}")
+    n_codes = n**k
+    o.check_eq(len(ka), n_codes, "kmer_alphabet_size", "len(KmerAlphabet)")
+    o.check_eq(int(ka.k), k, "kmer_alphabet_size", "KmerAlphabet.k")
+    if case["spacing"] is None:
+        o.check(ka.spacing is None, "kmer_alphabet_size", "spacing attribute of a contiguous k-mer alphabet")
+    else:
+        o.check_eq([int(x) for x in ka.spacing], sorted(case["spacing"]), "kmer_alphabet_size", "spacing attribute")
+    seq = GeneralSequence(alph, case["seq"])
+    o.label("code_dtype=" + str(seq.code.dtype))
+    o.check_eq([int(x) for x in seq.code], list(case["seq"]), "create_kmers", "symbol codes of the sequence (alphabet = range(n))")
+    kms = ref.kmer_tuples(list(case["seq"]), offs) if len(case["seq"]) >= span else []
+    codes = [ref.code_of(km, n) for km in kms]
+    nontrivial = False
+    if len(case["seq"]) < span:
+        o.label("seq_shorter_than_span")
+        refused, got = _rejected(o, lambda: ka.create_kmers(seq.code), "too_short_rejected")
+        if not refused:
+            o.check_eq(len(got), 0, "create_kmers", "sequence shorter than the k-mer span")
+    else:
+        got = ka.create_kmers(seq.code)
+        o.check_eq([int(x) for x in got], codes, "create_kmers", f"create_kmers() of {case['seq'][:20]}... over range({n})")
+        o.check_eq(int(ka.kmer_array_length(len(case["seq"]))), len(codes), "create_kmers", "kmer_array_length(len(sequence))")
+        arr = np.array(kms, dtype=np.int64).reshape(-1, k)
+        o.check_eq([int(x) for x in ka.fuse(arr)], codes, "fuse_split", "fuse((n,k) array)")
+        o.check_eq(int(ka.fuse(arr[0])), codes[0], "fuse_split", "fuse((k,) array)")
+        sp = ka.split(np.array(codes, dtype=np.int64))
+        o.check_eq([tuple(int(x) for x in row) for row in np.asarray(sp).reshape(-1, k)], [tuple(km) for km in kms], "fuse_split", "split(array of codes)")
+        o.check_eq(tuple(int(x) for x in ka.split(codes[-1])), tuple(kms[-1]), "fuse_split", "split(code)")
+        # symbols of range(n) are their own codes
+        o.check_eq(int(ka.encode(list(kms[0]))), codes[0], "fuse_split", "encode(k-mer symbols)")
+        o.check_eq(tuple(int(x) for x in ka.decode(codes[-1])), tuple(kms[-1]), "fuse_split", "decode(code)")
+        if max(codes) >= (1 << 32):
+            o.label("codes>=2^32")
+        nontrivial = len(set(codes)) < len(codes) or len(codes) >= 3
+
+        # ---- an index over this alphabet
+        kind = case["kind"] if n_codes <= 100000 else "bucket"
+        model = ref.TableModel(n, k)
+        model.add_sequence(list(case["seq"]), case["ref_id"], None, offs)
+        kw = {"spacing": _spacing_arg(case)}
+        if kind == "bucket" and case["n_buckets"] is not None:
+            kw["n_buckets"] = case["n_buckets"]
+        cls = KmerTable if kind == "direct" else BucketKmerTable
+        table = cls.from_sequences(k, [seq], ref_ids=[case["ref_id"]], **kw)
+        o.label(kind)
+        by_code = model.by_code()
+        o.check_eq(sorted(int(x) for x in table.get_kmers()), sorted(by_code), "get_kmers", "get_kmers()")
+        probes = sorted(by_code)
+        got = table.count(np.array(probes, dtype=np.int64))
+        o.check_eq([int(x) for x in got], [len(by_code[c]) for c in probes], "count", "count(kmers)")
+        if kind == "bucket" and max(probes) >= (1 << 32) and findings.is_open(F4):
+            o.exclude(F4)
+        else:
+            for code in probes[:8]:
+                if not _cmp_multiset(o, _rows(table[code], 2), by_code[code], "getitem", f"table[{code}]"):
+                    break
+        q = list(case["query"])
+        if len(q) >= span:
+            q_kmers = ref.kmer_tuples(q, offs)
+            want = ref.match_sequence(model, q_kmers, [True] * len(q_kmers), None)
+            rows = _rows(table.match(GeneralSequence(alph, q)), 3)
+            _cmp_multiset(o, rows, want, "match", "match(query)")
+            if want:
+                o.label("has_match")
+    o.mark_nontrivial(nontrivial)
+    return o
 
 
 # --------------------------------------------------------------------------
@@ -1541,22 +1948,26 @@ def _mm_seq(text, alph):
     return GeneralSequence(_mm_alphabet(alph), list(text) if _MM_GENERIC[0] else text)
 
 
-def _mm_naive(query, refs, k):
-    """symbol-wise matches of contiguous k-mers: (query pos, ref index, ref pos)"""
+def _mm_naive(query, refs, k, offs=None):
+    """symbol-wise matches of contiguous (or, with offs, spaced) k-mers: (query pos, ref index, ref pos)"""
+    offs = list(range(k)) if offs is None else list(offs)
+    span = offs[-1] + 1
     out = []
     for ri, r in enumerate(refs):
-        for rp in range(len(r) - k + 1):
-            for qp in range(len(query) - k + 1):
-                if query[qp : qp + k] == r[rp : rp + k]:
+        for rp in range(len(r) - span + 1):
+            rk = [r[rp + x] for x in offs]
+            for qp in range(len(query) - span + 1):
+                if [query[qp + x] for x in offs] == rk:
                     out.append((qp, ri, rp))
     return sorted(out)
 
 
 def run_alphabet_mismatch(case):
     """The index is defined on symbols.  Where a sequence or a table over another alphabet is
-    handed in, the only accepted outcomes are the documented ValueError (alphabet does not
-    extend / no common alphabet / different k-mer alphabets) or the symbol-wise correct result -
-    never matches computed from codes of different alphabets."""
+    handed in, the only accepted outcomes are a refusal (alphabet does not extend / no common
+    alphabet / different k-mer alphabets; ValueError today, no exception type is documented, any is
+    accepted and recorded as a label) or the symbol-wise correct result - never matches computed
+    from codes of different alphabets."""
     from biotite.sequence import LetterAlphabet
     from biotite.sequence.align import BucketKmerTable, KmerTable
 
@@ -1584,11 +1995,10 @@ def run_alphabet_mismatch(case):
     # match_table() of bucketed tables requires the same number of buckets on both sides
     bucket_kw = {"n_buckets": 11} if case["bucket"] else {}
     kwargs.update(bucket_kw)
-    try:
-        table = Table.from_sequences(k, ref_seqs, **kwargs)
-    except ValueError:
+    refused, table = _rejected(o, lambda: Table.from_sequences(k, ref_seqs, **kwargs), "from_sequences_rejected")
+    if refused:
         o.label("from_sequences_rejected")
-        o.check(not fits, "compatible_alphabets_accepted", lambda: f"from_sequences raised ValueError although {table_alph!r} extends {alphs}")
+        o.check(not fits, "compatible_alphabets_accepted", lambda: f"from_sequences raised an exception although {table_alph!r} extends {alphs}")
         o.mark_nontrivial(not fits)
         return o
     if not fits:
@@ -1620,9 +2030,8 @@ def run_alphabet_mismatch(case):
         got = do_match()
         o.check_eq(sorted(map(tuple, got.tolist())), want, "matches_exactly_identical_kmers", f"query {q['seq']!r} over {q['alph']!r}, table alphabet {real_alph!r}")
     else:
-        try:
-            got = do_match()
-        except ValueError:
+        refused, got = _rejected(o, do_match, "query_rejected")
+        if refused:
             o.label("query_rejected")
         else:
             o.label("query_accepted_although_not_extended")
@@ -1641,9 +2050,8 @@ def run_alphabet_mismatch(case):
             text = (text + qa * k)[:k]
         fits_now = real_alph.startswith(qa)
         want_now = _mm_naive(text, ref_texts, k)
-        try:
-            got_now = table.match(_mm_seq(text, qa))
-        except ValueError:
+        refused, got_now = _rejected(o, lambda: table.match(_mm_seq(text, qa)), "series_query_rejected")
+        if refused:
             o.check(not fits_now, "compatible_alphabets_accepted", f"query over {qa!r} (table alphabet {real_alph!r}) was rejected after earlier queries with other alphabets")
             continue
         o.check_eq(
@@ -1664,11 +2072,10 @@ def run_alphabet_mismatch(case):
         if ot["seq"][op : op + k] == t[rp : rp + k]
     )
     for a, b, swap in ((table, other_table, False), (other_table, table, True)):
-        try:
-            got_t = a.match_table(b)
-        except ValueError:
+        refused, got_t = _rejected(o, lambda: a.match_table(b), "match_table_rejected")
+        if refused:
             o.label("match_table_rejected")
-            o.check(not same_alph, "compatible_alphabets_accepted", "match_table raised ValueError for equal alphabets")
+            o.check(not same_alph, "compatible_alphabets_accepted", "match_table raised an exception for equal alphabets")
             continue
         rows = sorted((r[2], r[3], r[0], r[1]) if swap else tuple(r) for r in map(tuple, got_t.tolist()))
         clause = "matches_exactly_identical_kmers" if same_alph else "incompatible_alphabet_rejected"
@@ -1692,6 +2099,8 @@ def mk(alph, text):
     return GeneralSequence(a, list(text) if job["generic"] else text)
 Table = BucketKmerTable if job["bucket"] else KmerTable
 kw = {"n_buckets": 11} if job["bucket"] else {}
+if job.get("spacing") is not None:
+    kw["spacing"] = job["spacing"]
 restored = pickle.loads(job["table"])
 fresh = Table.from_sequences(job["k"], [mk(a, t) for a, t in job["refs"]], **kw)
 out = {"equal": bool(restored == fresh and fresh == restored)}
@@ -1710,10 +2119,17 @@ def st_pickle_cross(tier):
     def gen(draw):
         n = draw(st.integers(3, 6))
         base = "".join(draw(st.lists(st.sampled_from(MM_LETTERS), min_size=n, max_size=n, unique=True)))
-        k = draw(st.sampled_from([2, 3]))
-        refs = [draw(st.text(base, min_size=k, max_size=12)) for _ in range(draw(st.integers(1, 3)))]
+        k = draw(st.sampled_from([2, 3, 4]))
+        spacing = None
+        if _one_in(draw, 3):
+            spacing = sorted(draw(st.lists(st.integers(0, k + 2), min_size=k, max_size=k, unique=True)))
+        span = k if spacing is None else spacing[-1] + 1
+        refs = [draw(st.text(base, min_size=span, max_size=span + 10)) for _ in range(draw(st.integers(1, 3)))]
+        src = draw(st.sampled_from(refs))
+        a = draw(st.integers(0, len(src) - span))
+        query = (src[a:] + draw(st.text(base, max_size=6)))[: span + 10]
         return {
-            "base": base, "k": k, "refs": refs, "query": draw(st.text(base, min_size=k, max_size=12)),
+            "base": base, "k": k, "spacing": spacing, "refs": refs, "query": query,
             "bucket": draw(st.booleans()), "generic_alphabet": draw(st.booleans()),
             "hashseed": draw(st.integers(1, 4_000_000)),
         }
@@ -1723,6 +2139,7 @@ def st_pickle_cross(tier):
 
 def run_pickle_cross(case):
     import os
+    import signal
     import subprocess
     import sys
 
@@ -1733,28 +2150,55 @@ def run_pickle_cross(case):
     base, k = case["base"], case["k"]
     Table = BucketKmerTable if case["bucket"] else KmerTable
     kw = {"n_buckets": 11} if case["bucket"] else {}
+    spacing = case.get("spacing")
+    if spacing is not None:
+        kw["spacing"] = list(spacing)
     table = Table.from_sequences(k, [_mm_seq(t, base) for t in case["refs"]], **kw)
     # the usual in-process check first (it also makes the alphabets compare / hash themselves)
     o.check(pickle.loads(pickle.dumps(table)) == table, "restored_by_pickling_equal", "in-process pickle round trip")
-    hash(table.alphabet)
+    try:
+        hash(table.alphabet)
+    except TypeError:
+        o.label("alphabet_not_hashable")
     job = {
         "table": pickle.dumps(table), "k": k, "refs": [(base, t) for t in case["refs"]], "bucket": case["bucket"],
-        "generic": bool(case["generic_alphabet"]), "query": (base, case["query"]),
+        "generic": bool(case["generic_alphabet"]), "query": (base, case["query"]), "spacing": spacing,
     }
     env = dict(os.environ)
     env["PYTHONHASHSEED"] = str(case["hashseed"])
-    proc = subprocess.run([sys.executable, "-c", _CHILD], input=pickle.dumps(job), capture_output=True, env=env, timeout=120)
-    if proc.returncode != 0:
-        o.fail("restored_by_pickling_equal", f"the second interpreter failed: {proc.stderr.decode(errors='replace')[-600:]}")
+    try:
+        proc = subprocess.run([sys.executable, "-c", _CHILD], input=pickle.dumps(job), capture_output=True, env=env, timeout=300)
+    except subprocess.TimeoutExpired:
+        # machine load, not the property
+        o.label("child_timeout")
+        o.invalid = True
         return o
-    res = json.loads(proc.stdout.decode())
+    if proc.returncode != 0:
+        err = proc.stderr.decode(errors="replace")
+        crashed = proc.returncode in (-signal.SIGSEGV, -signal.SIGABRT, -signal.SIGBUS, -signal.SIGFPE, -signal.SIGILL)
+        if crashed or (proc.returncode > 0 and "Traceback" in err and "biotite" in err):
+            o.fail("restored_by_pickling_equal", f"the second interpreter failed (exit {proc.returncode}): {err[-600:]}")
+        elif proc.returncode > 0 and "Traceback" in err:
+            raise RuntimeError(f"pickle_cross_process: child script failed outside biotite: {err[-600:]}")
+        else:
+            # killed from outside (SIGTERM / SIGKILL, OOM killer) or no traceback: not decided
+            o.label(f"child_exit={proc.returncode}")
+            o.invalid = True
+        return o
+    try:
+        res = json.loads(proc.stdout.decode())
+    except ValueError:
+        o.label("child_output_unreadable")
+        o.invalid = True
+        return o
     o.check(res["equal"], "restored_by_pickling_equal", "index restored in another interpreter != the same index built there")
     o.check("match_table_error" not in res, "restored_by_pickling_equal", lambda: f"match_table of restored vs fresh index: {res.get('match_table_error')}")
     if "match_table" in res:
         o.check_eq(res["match_table"], res["match_table_fresh"], "restored_by_pickling_equal", "match_table(restored, fresh) vs match_table(fresh, fresh)")
-    want = [list(t) for t in _mm_naive(case["query"], case["refs"], k)]
+    want = [list(t) for t in _mm_naive(case["query"], case["refs"], k, spacing)]
     o.check_eq(res["match"], want, "matches_exactly_identical_kmers", "match() on the index restored in another interpreter")
     o.label("bucket" if case["bucket"] else "direct", "generic_Alphabet" if case["generic_alphabet"] else "LetterAlphabet")
+    o.label("spaced" if spacing is not None else "contiguous", f"k={k}")
     o.mark_nontrivial(len(want) > 0)
     return o
 
@@ -1764,7 +2208,7 @@ SUBS = [
         "pickle_cross_process",
         st_pickle_cross,
         run_pickle_cross,
-        quick=24,
+        quick=32,
         thorough=400,
         rule="index pickled here and restored in a second interpreter with another PYTHONHASHSEED; >= 1 match",
         clauses="restored by pickling: equal to the index built from the same sequences, same matches",
@@ -1776,13 +2220,13 @@ SUBS = [
         quick=1600,
         thorough=60000,
         rule="a reference, query or second table over an alphabet that is not the table alphabet (prefix, infix, suffix, permutation, superset)",
-        clauses="matches are defined on symbols: a foreign alphabet is either rejected with ValueError or handled symbol-wise correctly (from_sequences, match, match_table; both table variants)",
+        clauses="matches are defined on symbols: a foreign alphabet is either rejected (any exception type) or handled symbol-wise correctly (from_sequences, match, match_table; both table variants)",
     ),
     Sub(
         "table_match",
         st_table_match,
         run_table_match,
-        quick=4800,
+        quick=4400,
         thorough=190000,
         rule=">= 1 k-mer stored for >= 2 references and >= 1 match (bucketed: and >= 1 bucket collision)",
         clauses="match / match_table / match_kmer_selection return exactly the matching triples (exact, similar, masked, spaced) "
@@ -1796,7 +2240,9 @@ SUBS = [
         thorough=90000,
         rule=">= 2 usable references sharing a k-mer (bucketed: and a collision)",
         clauses="from_sequences, from_kmers, from_kmer_selection, from_positions, from_tables and a pickle round trip of equal "
-        "content give equal tables (==) with identical content; a table with one entry less is unequal",
+        "content give tables with identical content; a table equals (==) itself and its pickle round trip, == is symmetric and != its "
+        "negation (== between different constructors is recorded only: undocumented, order sensitive); a table with one entry "
+        "less / one position / one reference id changed is unequal",
     ),
     Sub(
         "bucket_big",
@@ -1806,6 +2252,17 @@ SUBS = [
         thorough=60000,
         rule="table holds a k-mer code >= 2^32, >= 1 match, >= 1 bucket collision",
         clauses="BucketKmerTable over k-mer alphabets beyond 32 bit: match, match_table, match_kmer_selection, count, get_kmers, table[kmer], pickling",
+    ),
+    Sub(
+        "kmer_alphabet",
+        st_kmer_alphabet,
+        run_kmer_alphabet,
+        quick=600,
+        thorough=30000,
+        rule="a repeated k-mer or >= 3 k-mers",
+        clauses="KmerAlphabet.create_kmers (contiguous and spaced) / fuse / split / encode / decode / kmer_array_length follow the "
+        "documented radix formula, also for base alphabets with more than 2^8 / 2^16 symbols (16 / 32 bit sequence codes); an "
+        "index over such an alphabet holds and matches exactly those k-mers",
     ),
     Sub(
         "similar_kmers",
@@ -1823,22 +2280,25 @@ SUBS = [
         quick=800,
         thorough=40000,
         rule=">= 2 distinct codes (frequency permutation: counts not all equal)",
-        clauses="RandomPermutation = LCG; FrequencyPermutation orders by count, ties by code; values in [min, max], unambiguous",
+        clauses="sort keys in [min, max], unambiguous, the same for every object and call; RandomPermutation = (a*c + 1) mod 2^64 "
+        "(documented formula, factor read off the object); FrequencyPermutation: less frequent k-mers are smaller (tie order and "
+        "exact key values recorded only)",
     ),
     Sub(
         "minimizer",
         st_minimizer,
         run_minimizer,
-        quick=3200,
+        quick=2800,
         thorough=150000,
         rule=">= 2 windows and (a tie inside a window or a selection that is neither one k-mer nor all)",
-        clauses="MinimizerSelector.select / select_from_kmers return the leftmost minimum of every window, each once",
+        clauses="MinimizerSelector.select / select_from_kmers return the leftmost minimum (by the sort keys of the permutation "
+        "object) of every window, each once",
     ),
     Sub(
         "syncmer",
         st_syncmer,
         run_syncmer,
-        quick=2400,
+        quick=2200,
         thorough=120000,
         rule=">= 2 k-mers and (a tie among the s-mers or a selection that is neither empty nor all)",
         clauses="SyncmerSelector / CachedSyncmerSelector select exactly the k-mers whose leftmost minimum s-mer is at an allowed offset",
@@ -1847,10 +2307,11 @@ SUBS = [
         "mincode",
         st_mincode,
         run_mincode,
-        quick=2400,
+        quick=2200,
         thorough=120000,
         rule="selection neither empty nor all",
-        clauses="MincodeSelector: threshold = min + range / compression; selects exactly the k-mers with (permuted) code below it",
+        clauses="MincodeSelector selects exactly the k-mers with (permuted) code below its public threshold; the threshold is "
+        "min + range / compression of the permutation's value range (up to float rounding)",
     ),
     Sub(
         "bucket_number",
@@ -1859,7 +2320,8 @@ SUBS = [
         quick=480,
         thorough=20000,
         rule="requested number > 3",
-        clauses="bucket_number returns the closest listed prime >= n_kmers / load_factor; default n_buckets of a table uses it",
+        clauses="auxiliary: bucket_number returns a listed prime that is the closest one at or above n_kmers / load_factor (>= or >, "
+        "rounded down or up: all four readings of the docstring accepted); default n_buckets of a table gives a load factor <= 1",
     ),
 ]
 
@@ -1890,6 +2352,7 @@ def spaced_kmers_with_ignore_mask(sub, case, clause, message):
         sub in ("table_match", "constructors_equal")
         and case.get("spacing") is not None
         and _any_mask(case)
+        and not case.get("f1_safe")
         and clause in _CONTENT_CLAUSES
     )
 
